@@ -153,8 +153,10 @@ func oracle(c *Case) (facts, error) {
 				return f, fmt.Errorf("batch %d result %d: query id %d, want %d (request id %d)", bi, i, r.QueryId, wantID, q.ID)
 			}
 			got := fix.FromPBResult(r)
-			if err := model.DiffResult(got, d.Query(q.Expr, q.GroupBy)); err != nil {
-				return f, fmt.Errorf("batch %d result %d (%s GROUP BY %q): %v", bi, i, q.Expr.String(), q.GroupBy, err)
+			if !hasEmptyNode(q.Expr) { // zero-operand nodes: the library alone is the reference (see below)
+				if err := model.DiffResult(got, d.Query(q.Expr, q.GroupBy)); err != nil {
+					return f, fmt.Errorf("batch %d result %d (%s GROUP BY %q): %v", bi, i, q.Expr.String(), q.GroupBy, err)
+				}
 			}
 			// and literally what the library returns on the same file
 			lres, lerr := fix.Exec(lib, fix.NewQuery(q.Expr, q.GroupBy))
@@ -172,12 +174,20 @@ func oracle(c *Case) (facts, error) {
 			return f, fmt.Errorf("sql.Open grpc: %v", err)
 		}
 		defer gdb.Close()
+		if len(c.DriverQs)%2 == 1 {
+			// no idle connections: every query's connection is closed after use
+			// (whatever the handle shares between its connections must survive that)
+			gdb.SetMaxIdleConns(0)
+		}
 		fdb, err := sql.Open("updog", "file:"+path)
 		if err != nil {
 			return f, fmt.Errorf("sql.Open file: %v", err)
 		}
 		defer fdb.Close()
 		for i, q := range c.DriverQs {
+			if hasEmptyNode(q.Expr) {
+				continue // zero-operand nodes have no text form
+			}
 			text := queryparser.QueryToString(&pb.Query{Expr: fix.ToPB(q.Expr), GroupBy: q.GroupBy})
 			run := func(db *sql.DB) (*fix.SQLRows, error) {
 				var out *fix.SQLRows
@@ -217,6 +227,20 @@ func oracle(c *Case) (facts, error) {
 		return f, fmt.Errorf("server died: %s", clip(srv.Output()))
 	}
 	return f, nil
+}
+
+// hasEmptyNode reports whether the tree contains an AND/OR without operands
+// (the library accepts those; what they mean is whatever the library says).
+func hasEmptyNode(e model.Expr) bool {
+	if (e.Op == model.OpAnd || e.Op == model.OpOr) && len(e.Subs) == 0 {
+		return true
+	}
+	for _, s := range e.Subs {
+		if hasEmptyNode(s) {
+			return true
+		}
+	}
+	return false
 }
 
 func clip(s string) string {
@@ -281,6 +305,16 @@ func drawQ(t *rapid.T, pool *gen.LeafPool, recipe bool, invalid bool) Q {
 		}
 	}
 	q.Expr = gen.UTF8Expr(pool.Expr(t, eo))
+	if !invalid && (q.Expr.Op == model.OpAnd || q.Expr.Op == model.OpOr) && rapid.IntRange(0, 7).Draw(t, "emptynode") == 0 {
+		// a hand-built tree: an AND/OR without operands as one of the operands
+		// (directly nested in a node of the same or the other kind), or below NOT
+		empty := model.Expr{Op: rapid.SampledFrom([]int{model.OpAnd, model.OpOr}).Draw(t, "emptyop")}
+		if rapid.Bool().Draw(t, "emptynot") {
+			empty = model.Not(empty)
+		}
+		subs := append(append([]model.Expr(nil), q.Expr.Subs...), empty)
+		q.Expr = model.Expr{Op: q.Expr.Op, Subs: subs}
+	}
 	if invalid && eo.UnknownPct > 0 && !pool.D.Rejects(q.Expr, nil) {
 		q.Expr = model.And(q.Expr, model.Eq("no_such_column", "x"))
 	}
